@@ -1,2 +1,450 @@
-/- C09 (statements are being added) -/
+/-
+  C09 — regex generation yields a full match or refuses loudly.
+
+  `MatchesSeq ext r s`: the string `s` is in the language of the pattern tree `r` (textbook semantics;
+  an anchor matches the empty string, which is its meaning at the pattern ends — the supported grammar).
+  `ext` says which non-ASCII characters `\d` / `\w` accept (CPython's Unicode tables; arbitrary here).
+-/
 import D42.Model.Gen
+
+namespace D42
+
+def isAsciiDigit (x : Nat) : Prop := 48 ≤ x ∧ x ≤ 57
+def isAsciiWord (x : Nat) : Prop := (48 ≤ x ∧ x ≤ 57) ∨ (65 ≤ x ∧ x ≤ 90) ∨ (97 ≤ x ∧ x ≤ 122) ∨ x = 95
+
+/-- which characters a class item accepts -/
+def ClsItem.accepts (ext : ClsItem → Nat → Prop) : ClsItem → Nat → Prop
+  | .lit c, x => x = c
+  | .range lo hi, x => lo ≤ x ∧ x ≤ hi
+  | .digit, x => isAsciiDigit x ∨ (128 ≤ x ∧ ext .digit x)
+  | .word, x => isAsciiWord x ∨ (128 ≤ x ∧ ext .word x)
+  | .unsup n, x => ext (.unsup n) x
+
+/-- `n` consecutive pieces, each satisfying `P` -/
+def RepN (P : Str → Prop) : Nat → Str → Prop
+  | 0, s => s = []
+  | n + 1, s => ∃ a b, s = a ++ b ∧ P a ∧ RepN P n b
+
+mutual
+def Matches (ext : ClsItem → Nat → Prop) : Re → Str → Prop
+  | .any, s => ∃ c, s = [c] ∧ c ≠ 10
+  | .lit c, s => s = [c]
+  | .notLit c, s => ∃ x, s = [x] ∧ x ≠ c
+  | .cls neg items, s => ∃ x, s = [x] ∧ ((∃ it ∈ items, it.accepts ext x) ↔ neg = false)
+  | .group r, s => MatchesSeq ext r s
+  | .rep mn mx r, s => ∃ n : Nat, mn ≤ n ∧ (∀ m, mx = some m → n ≤ m) ∧ RepN (MatchesSeq ext r) n s
+  | .at_, s => s = []
+  | .branch alts, s => MatchesAlt ext alts s
+  | .unsup _, _ => False
+def MatchesSeq (ext : ClsItem → Nat → Prop) : List Re → Str → Prop
+  | [], s => s = []
+  | r :: rs, s => ∃ a b, s = a ++ b ∧ Matches ext r a ∧ MatchesSeq ext rs b
+def MatchesAlt (ext : ClsItem → Nat → Prop) : List (List Re) → Str → Prop
+  | [], _ => False
+  | a :: as, s => MatchesSeq ext a s ∨ MatchesAlt ext as s
+end
+
+/-! ### helper lemmas -/
+
+theorem G.bind_ok {α β} {m : G α} {f : α → G β} {st st' : GS} {b : β}
+    (h : G.bind m f st = .ok (b, st')) : ∃ a st1, m st = .ok (a, st1) ∧ f a st1 = .ok (b, st') := by
+  unfold G.bind at h
+  cases hm : m st with
+  | error e => simp [hm] at h
+  | ok p => obtain ⟨a, st1⟩ := p; simp [hm] at h; exact ⟨a, st1, rfl, h⟩
+
+theorem G.bind_error {α β} {m : G α} {f : α → G β} {st : GS} {e : PyExc}
+    (h : G.bind m f st = .error e) : m st = .error e ∨ ∃ a st1, m st = .ok (a, st1) ∧ f a st1 = .error e := by
+  unfold G.bind at h
+  cases hm : m st with
+  | error e' => simp [hm] at h; left; rw [h]
+  | ok p => obtain ⟨a, st1⟩ := p; simp [hm] at h; right; exact ⟨a, st1, rfl, h⟩
+
+theorem G.pure_ok {α} {a b : α} {st st' : GS} (h : G.pure a st = .ok (b, st')) : b = a ∧ st' = st := by
+  simp [G.pure] at h; exact ⟨h.1.symm, h.2.symm⟩
+
+theorem randint_ok {a b n : Int} {st st' : GS} (h : randint a b st = .ok (n, st')) :
+    a ≤ n ∧ n ≤ b ∧ st.draws.head? = some (.int n) := by
+  unfold randint at h
+  split at h
+  · simp at h
+  · split at h
+    · rename_i hd
+      split at h
+      · simp at h; rw [hd]; obtain ⟨rfl, _⟩ := h; simp_all
+      · simp at h
+    · simp at h
+
+theorem randint_error {a b : Int} {st : GS} {e : PyExc} (h : randint a b st = .error e) :
+    e = .valueError ∨ e = .badDraw := by
+  unfold randint at h
+  grind
+
+theorem choiceIdx_ok {n i : Nat} {st st' : GS} (h : choiceIdx n st = .ok (i, st')) : i < n := by
+  unfold choiceIdx at h
+  grind
+
+theorem choiceIdx_error {n : Nat} {st : GS} {e : PyExc} (h : choiceIdx n st = .error e) :
+    e = .indexError ∨ e = .badDraw := by
+  unfold choiceIdx at h
+  grind
+
+theorem choiceChar_ok {cands : List Nat} {c : Nat} {st st' : GS}
+    (h : choiceChar cands st = .ok (c, st')) : c ∈ cands := by
+  unfold choiceChar at h
+  split at h
+  · simp at h
+  · split at h
+    · split at h
+      · rename_i hc; simp at h; simp at hc; rw [← h.1]; exact hc
+      · simp at h
+    · simp at h
+
+theorem choiceChar_error {cands : List Nat} {st : GS} {e : PyExc} (h : choiceChar cands st = .error e) :
+    e = .indexError ∨ e = .badDraw := by
+  unfold choiceChar at h
+  grind
+
+theorem liftE_ok {α} {x : Except PyExc α} {a : α} {st st' : GS} (h : liftE x st = .ok (a, st')) :
+    x = .ok a := by
+  unfold liftE at h
+  cases x <;> simp at h
+  simp [h.1]
+
+theorem excluded_error {it : ClsItem} {e : PyExc} (h : excluded it = .error e) : e = .valueError := by
+  cases it <;> simp [excluded] at h
+  exact h.symm
+
+theorem excludedAll_error : ∀ {items : List ClsItem} {e : PyExc}, excludedAll items = .error e → e = .valueError
+  | [], e, h => by simp [excludedAll] at h
+  | it :: items, e, h => by
+    simp only [excludedAll, bind, Except.bind] at h
+    cases h1 : excluded it with
+    | error e1 => simp [h1] at h; subst h; exact excluded_error h1
+    | ok a =>
+      simp [h1] at h
+      cases h2 : excludedAll items with
+      | error e2 => simp [h2] at h; subst h; exact excludedAll_error h2
+      | ok b => simp [h2, pure, Except.pure] at h
+
+theorem mem_rangeChars {lo hi x : Nat} : x ∈ rangeChars lo hi ↔ lo ≤ x ∧ x ≤ hi := by
+  simp only [rangeChars, List.mem_map, List.mem_range]
+  constructor
+  · rintro ⟨a, h1, rfl⟩; omega
+  · rintro ⟨h1, h2⟩; exact ⟨x - lo, by omega, by omega⟩
+
+theorem rx_digits_complete : ∀ x, x < 128 → 48 ≤ x ∧ x ≤ 57 → x ∈ Consts.RX_DIGITS := by decide
+theorem rx_word_complete : ∀ x, x < 128 →
+    ((48 ≤ x ∧ x ≤ 57) ∨ (65 ≤ x ∧ x ≤ 90) ∨ (97 ≤ x ∧ x ≤ 122) ∨ x = 95) → x ∈ Consts.RX_WORD := by decide
+theorem rx_letters_ascii : ∀ c ∈ Consts.RX_LETTERS, c < 128 := by decide
+
+theorem excluded_accepts (ext : ClsItem → Nat → Prop) {it : ClsItem} {ex : List Nat} {x : Nat}
+    (h : excluded it = .ok ex) (hx : x < 128) (hn : x ∉ ex) : ¬ it.accepts ext x := by
+  cases it with
+  | lit c => simp [excluded] at h; subst h; simpa [ClsItem.accepts] using hn
+  | range lo hi => simp [excluded] at h; subst h; simpa [ClsItem.accepts, mem_rangeChars] using hn
+  | digit =>
+    simp [excluded] at h; subst h
+    simp only [ClsItem.accepts, isAsciiDigit]
+    rintro (h | h)
+    · exact hn (rx_digits_complete x hx h)
+    · omega
+  | word =>
+    simp [excluded] at h; subst h
+    simp only [ClsItem.accepts, isAsciiWord]
+    rintro (h | h)
+    · exact hn (rx_word_complete x hx h)
+    · omega
+  | unsup n => simp [excluded] at h
+
+theorem excludedAll_accepts (ext : ClsItem → Nat → Prop) {x : Nat} (hx : x < 128) :
+    ∀ {items : List ClsItem} {ex : List Nat}, excludedAll items = .ok ex → x ∉ ex →
+      ∀ it ∈ items, ¬ it.accepts ext x
+  | [], _, _, _ => by simp
+  | i :: is, ex, h, hn => by
+    simp only [excludedAll, bind, Except.bind] at h
+    cases h1 : excluded i with
+    | error e1 => simp [h1] at h
+    | ok a =>
+      simp [h1] at h
+      cases h2 : excludedAll is with
+      | error e2 => simp [h2] at h
+      | ok b =>
+        simp [h2, pure, Except.pure] at h
+        subst h
+        simp only [List.mem_append, not_or] at hn
+        intro it hit
+        rcases List.mem_cons.mp hit with rfl | hit
+        · exact excluded_accepts ext h1 hx hn.1
+        · exact excludedAll_accepts ext hx h2 hn.2 it hit
+
+theorem genNotIn_ok {items : List ClsItem} {x : Nat} {st st' : GS} (h : genNotIn items st = .ok (x, st')) :
+    ∃ ex, excludedAll items = .ok ex ∧ x ∈ Consts.RX_LETTERS ∧ x ∉ ex := by
+  unfold genNotIn at h
+  obtain ⟨ex, st1, h1, h2⟩ := G.bind_ok h
+  have hm := choiceChar_ok h2
+  simp only [List.mem_filter] at hm
+  exact ⟨ex, liftE_ok h1, hm.1, by simpa using hm.2⟩
+
+theorem genNotIn_error {items : List ClsItem} {st : GS} {e : PyExc} (h : genNotIn items st = .error e) :
+    e = .valueError ∨ e = .indexError ∨ e = .badDraw := by
+  unfold genNotIn at h
+  rcases G.bind_error h with h1 | ⟨ex, st1, _, h2⟩
+  · left
+    unfold liftE at h1
+    cases hx : excludedAll items with
+    | ok a => simp [hx] at h1
+    | error e' => simp [hx] at h1; subst h1; exact excludedAll_error hx
+  · right; exact choiceChar_error h2
+
+theorem genNotIn_sound (ext : ClsItem → Nat → Prop) {items : List ClsItem} {x : Nat} {st st' : GS}
+    (h : genNotIn items st = .ok (x, st')) : ¬ ∃ it ∈ items, it.accepts ext x := by
+  obtain ⟨ex, h1, h2, h3⟩ := genNotIn_ok h
+  rintro ⟨it, hit, hacc⟩
+  exact excludedAll_accepts ext (rx_letters_ascii x h2) h1 h3 it hit hacc
+
+theorem genClsItem_sound (ext : ClsItem → Nat → Prop) {it : ClsItem} {x : Nat} {st st' : GS}
+    (h : genClsItem it st = .ok (x, st')) : it.accepts ext x := by
+  cases it with
+  | lit c =>
+    simp only [genClsItem, pure] at h
+    simp [ClsItem.accepts, (G.pure_ok h).1]
+  | range lo hi =>
+    simp only [genClsItem, bind, pure] at h
+    obtain ⟨n, st1, h1, h2⟩ := G.bind_ok h
+    obtain ⟨h3, h4, _⟩ := randint_ok h1
+    obtain ⟨rfl, _⟩ := G.pure_ok h2
+    simp only [ClsItem.accepts]; omega
+  | digit =>
+    simp only [genClsItem] at h
+    exact Or.inl (Consts.rx_digits_are_digits x (choiceChar_ok h))
+  | word =>
+    simp only [genClsItem] at h
+    exact Or.inl (Consts.rx_word_are_word x (choiceChar_ok h))
+  | unsup n => simp [genClsItem, G.fail] at h
+
+theorem genClsItem_error {it : ClsItem} {st : GS} {e : PyExc} (h : genClsItem it st = .error e) :
+    e = .valueError ∨ e = .indexError ∨ e = .badDraw := by
+  cases it with
+  | lit c => simp [genClsItem, pure, G.pure] at h
+  | range lo hi =>
+    simp only [genClsItem, bind, pure] at h
+    rcases G.bind_error h with h1 | ⟨n, st1, _, h2⟩
+    · rcases randint_error h1 with rfl | rfl <;> simp
+    · simp [G.pure] at h2
+  | digit => simp only [genClsItem] at h; right; exact choiceChar_error h
+  | word => simp only [genClsItem] at h; right; exact choiceChar_error h
+  | unsup n => simp [genClsItem, G.fail] at h; simp [← h]
+
+theorem repeatG_sound {m : G Str} {P : Str → Prop} (hm : ∀ st st' s, m st = .ok (s, st') → P s) :
+    ∀ (n : Nat) (st st' : GS) (s : Str), repeatG m n st = .ok (s, st') → RepN P n s
+  | 0, st, st', s, h => by
+    simp only [repeatG, pure] at h
+    simp [RepN, (G.pure_ok h).1]
+  | n + 1, st, st', s, h => by
+    simp only [repeatG, bind, pure] at h
+    obtain ⟨a, st1, h1, h2⟩ := G.bind_ok h
+    obtain ⟨b, st2, h3, h4⟩ := G.bind_ok h2
+    obtain ⟨rfl, _⟩ := G.pure_ok h4
+    exact ⟨a, b, rfl, hm _ _ _ h1, repeatG_sound hm n _ _ _ h3⟩
+
+theorem repeatG_error {m : G Str} {Q : PyExc → Prop} (hm : ∀ st e, m st = .error e → Q e) :
+    ∀ (n : Nat) (st : GS) (e : PyExc), repeatG m n st = .error e → Q e
+  | 0, st, e, h => by simp [repeatG, pure, G.pure] at h
+  | n + 1, st, e, h => by
+    simp only [repeatG, bind, pure] at h
+    rcases G.bind_error h with h1 | ⟨a, st1, _, h2⟩
+    · exact hm _ _ h1
+    · rcases G.bind_error h2 with h3 | ⟨b, st2, _, h4⟩
+      · exact repeatG_error hm n _ _ h3
+      · simp [G.pure] at h4
+
+/-! ### theorems to prove -/
+
+mutual
+theorem genRe_sound (ext : ClsItem → Nat → Prop) : ∀ (r : Re) (st st' : GS) (s : Str),
+    genRe r st = .ok (s, st') → Matches ext r s
+  | .any, st, st', s, h => by
+    simp only [genRe, bind, pure] at h
+    obtain ⟨c, st1, h1, h2⟩ := G.bind_ok h
+    obtain ⟨rfl, _⟩ := G.pure_ok h2
+    simp only [Matches]
+    exact ⟨c, rfl, Consts.rx_letters_no_newline c (choiceChar_ok h1)⟩
+  | .lit c, st, st', s, h => by
+    simp only [genRe, pure] at h
+    simp [Matches, (G.pure_ok h).1]
+  | .notLit c, st, st', s, h => by
+    simp only [genRe, bind, pure] at h
+    obtain ⟨x, st1, h1, h2⟩ := G.bind_ok h
+    obtain ⟨rfl, _⟩ := G.pure_ok h2
+    simp only [Matches]
+    refine ⟨x, rfl, ?_⟩
+    have := genNotIn_sound ext h1
+    intro hx; apply this
+    exact ⟨.lit c, by simp, by simp [ClsItem.accepts, hx]⟩
+  | .cls true items, st, st', s, h => by
+    simp only [genRe, bind, pure] at h
+    obtain ⟨x, st1, h1, h2⟩ := G.bind_ok h
+    obtain ⟨rfl, _⟩ := G.pure_ok h2
+    simp only [Matches]
+    refine ⟨x, rfl, ?_⟩
+    have := genNotIn_sound ext h1
+    simp [this]
+  | .cls false items, st, st', s, h => by
+    simp only [genRe, bind, pure] at h
+    obtain ⟨i, st1, h1, h2⟩ := G.bind_ok h
+    cases hi : items[i]? with
+    | none => simp [hi, G.fail] at h2
+    | some it =>
+      simp only [hi] at h2
+      obtain ⟨x, st2, h3, h4⟩ := G.bind_ok h2
+      obtain ⟨rfl, _⟩ := G.pure_ok h4
+      simp only [Matches]
+      refine ⟨x, rfl, ?_⟩
+      simp only [iff_true]
+      exact ⟨it, List.mem_of_getElem? hi, genClsItem_sound ext h3⟩
+  | .group r, st, st', s, h => by
+    simp only [genRe] at h
+    simp only [Matches]
+    exact genSeq_sound ext r st st' s h
+  | .rep mn mx r, st, st', s, h => by
+    simp only [genRe, bind] at h
+    obtain ⟨n, st1, h1, h2⟩ := G.bind_ok h
+    obtain ⟨h3, h4, _⟩ := randint_ok h1
+    simp only [Matches]
+    refine ⟨n.toNat, by omega, ?_, repeatG_sound (fun a b c hh => genSeq_sound ext r a b c hh) _ _ _ _ h2⟩
+    intro m hm
+    subst hm
+    simp at h4
+    omega
+  | .at_, st, st', s, h => by
+    simp only [genRe, pure] at h
+    simp [Matches, (G.pure_ok h).1]
+  | .branch alts, st, st', s, h => by
+    simp only [genRe, bind] at h
+    obtain ⟨i, st1, h1, h2⟩ := G.bind_ok h
+    simp only [Matches]
+    exact genAlt_sound ext alts i st1 st' s h2
+  | .unsup n, st, st', s, h => by simp [genRe, G.fail] at h
+theorem genSeq_sound (ext : ClsItem → Nat → Prop) : ∀ (r : List Re) (st st' : GS) (s : Str),
+    genSeq r st = .ok (s, st') → MatchesSeq ext r s
+  | [], st, st', s, h => by
+    simp only [genSeq, pure] at h
+    simp [MatchesSeq, (G.pure_ok h).1]
+  | r :: rs, st, st', s, h => by
+    simp only [genSeq, bind, pure] at h
+    obtain ⟨a, st1, h1, h2⟩ := G.bind_ok h
+    obtain ⟨b, st2, h3, h4⟩ := G.bind_ok h2
+    obtain ⟨rfl, _⟩ := G.pure_ok h4
+    simp only [MatchesSeq]
+    exact ⟨a, b, rfl, genRe_sound ext r _ _ _ h1, genSeq_sound ext rs _ _ _ h3⟩
+theorem genAlt_sound (ext : ClsItem → Nat → Prop) : ∀ (alts : List (List Re)) (i : Nat) (st st' : GS) (s : Str),
+    genAlt alts i st = .ok (s, st') → MatchesAlt ext alts s
+  | [], i, st, st', s, h => by simp [genAlt, G.fail] at h
+  | a :: as, 0, st, st', s, h => by
+    simp only [genAlt] at h
+    simp only [MatchesAlt]
+    exact Or.inl (genSeq_sound ext a _ _ _ h)
+  | a :: as, i + 1, st, st', s, h => by
+    simp only [genAlt] at h
+    simp only [MatchesAlt]
+    exact Or.inr (genAlt_sound ext as i _ _ _ h)
+end
+
+/-- unsupported opcodes on the generation path are refused with ValueError -/
+theorem genRe_unsup (n : Nat) (st : GS) : genRe (.unsup n) st = .error .valueError := by
+  simp [genRe, G.fail]
+
+/-- a class that contains an unsupported category is refused when that item is drawn / needed -/
+theorem genClsItem_unsup (n : Nat) (st : GS) : genClsItem (.unsup n) st = .error .valueError := by
+  simp [genClsItem, G.fail]
+
+/-- an open-ended repeat draws its count from `[min, max(cap, min)]`, a bounded one from `[min, max]` -/
+theorem rep_request (mn : Nat) (mx : Option Nat) (r : List Re) (st st' : GS) (s : Str)
+    (h : genRe (.rep mn mx r) st = .ok (s, st')) :
+    ∃ n : Int, st.draws.head? = some (.int n) ∧ (mn : Int) ≤ n ∧
+      n ≤ ((match mx with | some m => m | none => max Consts.RX_MAX_REPEAT mn : Nat) : Int) := by
+  cases mx <;>
+  · simp only [genRe, bind] at h
+    obtain ⟨n, st1, h1, h2⟩ := G.bind_ok h
+    obtain ⟨h3, h4, h5⟩ := randint_ok h1
+    exact ⟨n, h5, h3, h4⟩
+
+def RxErr (e : PyExc) : Prop := e = .valueError ∨ e = .indexError ∨ e = .badDraw
+
+mutual
+theorem genRe_error_kind : ∀ (r : Re) (st : GS) (e : PyExc), genRe r st = .error e → RxErr e
+  | .any, st, e, h => by
+    simp only [genRe, bind, pure] at h
+    rcases G.bind_error h with h1 | ⟨c, st1, _, h2⟩
+    · exact Or.inr (choiceChar_error h1)
+    · simp [G.pure] at h2
+  | .lit c, st, e, h => by simp [genRe, pure, G.pure] at h
+  | .notLit c, st, e, h => by
+    simp only [genRe, bind, pure] at h
+    rcases G.bind_error h with h1 | ⟨c, st1, _, h2⟩
+    · exact genNotIn_error h1
+    · simp [G.pure] at h2
+  | .cls true items, st, e, h => by
+    simp only [genRe, bind, pure] at h
+    rcases G.bind_error h with h1 | ⟨c, st1, _, h2⟩
+    · exact genNotIn_error h1
+    · simp [G.pure] at h2
+  | .cls false items, st, e, h => by
+    simp only [genRe, bind, pure] at h
+    rcases G.bind_error h with h1 | ⟨i, st1, _, h2⟩
+    · exact Or.inr (choiceIdx_error h1)
+    · cases hi : items[i]? with
+      | none => simp [hi, G.fail] at h2; simp [RxErr, ← h2]
+      | some it =>
+        simp only [hi] at h2
+        rcases G.bind_error h2 with h3 | ⟨x, st2, _, h4⟩
+        · exact genClsItem_error h3
+        · simp [G.pure] at h4
+  | .group r, st, e, h => by
+    simp only [genRe] at h
+    exact genSeq_error_kind' r st e h
+  | .rep mn mx r, st, e, h => by
+    simp only [genRe, bind] at h
+    rcases G.bind_error h with h1 | ⟨n, st1, _, h2⟩
+    · rcases randint_error h1 with rfl | rfl <;> simp [RxErr]
+    · exact repeatG_error (Q := RxErr) (fun a b hh => genSeq_error_kind' r a b hh) _ _ _ h2
+  | .at_, st, e, h => by simp [genRe, pure, G.pure] at h
+  | .branch alts, st, e, h => by
+    simp only [genRe, bind] at h
+    rcases G.bind_error h with h1 | ⟨i, st1, _, h2⟩
+    · exact Or.inr (choiceIdx_error h1)
+    · exact genAlt_error_kind alts i st1 e h2
+  | .unsup n, st, e, h => by simp [genRe, G.fail] at h; simp [RxErr, ← h]
+theorem genSeq_error_kind' : ∀ (r : List Re) (st : GS) (e : PyExc), genSeq r st = .error e → RxErr e
+  | [], st, e, h => by simp [genSeq, pure, G.pure] at h
+  | r :: rs, st, e, h => by
+    simp only [genSeq, bind, pure] at h
+    rcases G.bind_error h with h1 | ⟨a, st1, _, h2⟩
+    · exact genRe_error_kind r _ _ h1
+    · rcases G.bind_error h2 with h3 | ⟨b, st2, _, h4⟩
+      · exact genSeq_error_kind' rs _ _ h3
+      · simp [G.pure] at h4
+theorem genAlt_error_kind : ∀ (alts : List (List Re)) (i : Nat) (st : GS) (e : PyExc),
+    genAlt alts i st = .error e → RxErr e
+  | [], i, st, e, h => by simp [genAlt, G.fail] at h; simp [RxErr, ← h]
+  | a :: as, 0, st, e, h => by
+    simp only [genAlt] at h
+    exact genSeq_error_kind' a _ _ h
+  | a :: as, i + 1, st, e, h => by
+    simp only [genAlt] at h
+    exact genAlt_error_kind as i _ _ h
+end
+
+/-- errors of the regex generator are only: ValueError (unsupported construct, empty randint range),
+    IndexError (a negated class that excludes the whole alphabet / empty choice), or a bad draw list -/
+theorem genSeq_error_kind (r : List Re) (st : GS) (e : PyExc) :
+    genSeq r st = .error e → e = .valueError ∨ e = .indexError ∨ e = .badDraw :=
+  genSeq_error_kind' r st e
+
+/-- non-vacuity: `[a-c]{2}x` generates "abx" from the draws (2; choice 0, 'a'; choice 0, 'b') -/
+example : ∃ st', genSeq [.rep 2 (some 2) [.cls false [.range 97 99]], .lit 120]
+    { draws := [.int 2, .idx 0, .int 97, .idx 0, .int 98] } = .ok ([97, 98, 120], st') := by
+  simp [genSeq, genRe, repeatG, genClsItem, randint, choiceIdx, bind, G.bind, pure, G.pure]
+
+end D42
